@@ -22,6 +22,7 @@ RULE = ('Hypothesis draws content (empty/ASCII/UTF-8 incl. astral/Latin-1 bytes 
         '+ last flag, compression scope, octet-exact literal body, import returns the same content/filename/time/format/compression/signature '
         'multiset, signatures verify under PGPy and the reference. Non-trivial: >=2 signers, or compressed+signed, or non-ASCII content/file name, or '
         'foreign encoding; distinct by (signer count, compression, format, content class, direction).')
+RULE += ' Contents include incompressible blocks repeated at distances 8200..33000 (DEFLATE matches up to the full window) under every compression, both directions.'
 ASSUMPTIONS = ['refpgp.grammar recogniser and zlib/bz2 (shared) are trusted', 'literal time compared at one-second resolution',
                'file names and times are supplied through PGPMessage.new(file=True) on temporary files, the only public way to set them',
                'for explicit format "t" with non-ASCII text only before/after equality of .message is asserted (the statement is about export/import)']
